@@ -34,11 +34,15 @@ func (env *Env) call(e *spec.Call) Value {
 	case "old":
 		argc(1)
 		if env.old == nil {
+			if env.inOld {
+				return env.eval(e.Args[0]) // old(old(e)) == old(e)
+			}
 			specErr("old() used where there is no pre-state")
 		}
 		c := env.child()
 		c.st = env.old
 		c.old = nil
+		c.inOld = true
 		if env.oldNames != nil {
 			c.names = env.oldNames
 		}
